@@ -4,6 +4,7 @@ package layout
 
 import (
 	"sort"
+	"strings"
 
 	"github.com/tsawler/tabula/model"
 	"github.com/tsawler/tabula/text"
@@ -391,9 +392,10 @@ func (d *BlockDetector) validateBlocks(blocks []Block) []Block {
 			continue
 		}
 
-		// Skip blocks that are too small
-		if block.BBox.Width < d.config.MinBlockWidth ||
-			block.BBox.Height < d.config.MinBlockHeight {
+		// Skip blocks that are too small - unless they carry text: on a page with
+		// small coordinates (or a lone short word) the block is still content
+		if (block.BBox.Width < d.config.MinBlockWidth ||
+			block.BBox.Height < d.config.MinBlockHeight) && !blockHasText(block) {
 			continue
 		}
 
@@ -409,6 +411,16 @@ func (d *BlockDetector) validateBlocks(blocks []Block) []Block {
 }
 
 // Helper functions
+
+// blockHasText reports whether any fragment of the block has non-space text.
+func blockHasText(block Block) bool {
+	for _, f := range block.Fragments {
+		if strings.TrimSpace(f.Text) != "" {
+			return true
+		}
+	}
+	return false
+}
 
 // lineMinY returns the minimum Y of all fragments in a line (bottom)
 func lineMinY(line []text.TextFragment) float64 {
